@@ -19,10 +19,11 @@ pub mod c05;
 pub mod c06;
 pub mod c07;
 pub mod c12;
+pub mod c17;
 
 use runner::{Run, Sub};
 
-pub const PROPS: &[&str] = &["C01", "C02", "C03", "C04", "C05", "C06", "C07", "C12"];
+pub const PROPS: &[&str] = &["C01", "C02", "C03", "C04", "C05", "C06", "C07", "C12", "C17"];
 
 pub fn subs_of(prop: &str) -> Option<Vec<Sub>> {
     match prop {
@@ -34,6 +35,7 @@ pub fn subs_of(prop: &str) -> Option<Vec<Sub>> {
         "C06" => Some(c06::subs()),
         "C07" => Some(c07::subs()),
         "C12" => Some(c12::subs()),
+        "C17" => Some(c17::subs()),
         _ => None,
     }
 }
@@ -48,6 +50,7 @@ pub fn run_prop(run: &Run) -> bool {
         "C06" => c06::run(run),
         "C07" => c07::run(run),
         "C12" => c12::run(run),
+        "C17" => c17::run(run),
         _ => return false,
     }
     true
